@@ -11,12 +11,12 @@ names, argument lists, keyword lists, aliases, context names, numbers of concurr
 `decode (encode v) = some v` for the values of the call (arguments, result / exception).  The harness validates
 that hypothesis differentially on sampled values.
 
-**Known defect of the pinned tree** (found by the differential run): a caller keyword named like one of the four
-positional-or-keyword parameters of `blocking_rpc_method_call` / `non_blocking_rpc_method_call`
-(`context`, `rpc_object_address`, `method_name`, `rpc_lock_token`) raises `TypeError` at the proxy.  Hence the full
-statement `proxy_eq_direct` holds for a helper without such parameters (`params = []`, e.g. positional-only),
-`proxy_eq_direct_partial` holds for the pinned tree under "no keyword is named like a helper parameter", and
-`proxy_eq_direct_false_for_pinned_params` is the witness that the hypothesis cannot be dropped.
+**History.**  Up to commit 04de7e7 a caller keyword named like one of the four positional-or-keyword parameters of
+`blocking_rpc_method_call` / `non_blocking_rpc_method_call` (`context`, `rpc_object_address`, `method_name`,
+`rpc_lock_token`) raised `TypeError` at the proxy (found by the differential run).  Commit 266e9a5 made those
+parameters positional-only; the list extracted from the source is now empty (`gen_helper_params_empty`), and
+`proxy_eq_direct` is stated and proved at full strength about the stubs and the helper *as the source has them now*.
+`historical_keyword_collision` keeps the old witness, about the constant `helperParamsBeforeFix` only.
 -/
 namespace QmiModel.Forward
 
@@ -140,12 +140,20 @@ theorem late_binding_sends_last_name :
 
 example : "get_a" ∈ ["get_a", "get_b", "set_c"] := by decide
 
-/-- the helper parameters a caller keyword can collide with, as extracted from the current source, are among the
-four of the pinned tree (a new one would be a new way to violate the property) -/
-theorem gen_helper_params_known :
-    ∀ p ∈ QmiModel.Gen.StubBinding.blockingHelperParams ++ QmiModel.Gen.StubBinding.nonBlockingHelperParams,
-      p ∈ pinnedHelperParams := by
+/-- the helpers the stubs call have, in the current source, **no** positional-or-keyword parameter a caller keyword
+could collide with (they are positional-only since 266e9a5); an edit that reintroduces one breaks this obligation -/
+theorem gen_helper_params_empty :
+    QmiModel.Gen.StubBinding.blockingHelperParams = [] ∧ QmiModel.Gen.StubBinding.nonBlockingHelperParams = [] := by
   decide
+
+/-- binding and helper parameters of the stubs of a proxy, as extracted from the current source -/
+def genBinding : Mode → Binding
+  | .blocking => QmiModel.Gen.StubBinding.blockingBinding
+  | .nonBlocking => QmiModel.Gen.StubBinding.nonBlockingBinding
+
+def genParams : Mode → List String
+  | .blocking => QmiModel.Gen.StubBinding.blockingHelperParams
+  | .nonBlocking => QmiModel.Gen.StubBinding.nonBlockingHelperParams
 
 /-! ## pickle: what the hypothesis `decode (encode v) = some v` buys -/
 
@@ -291,8 +299,8 @@ theorem stubKwargs_ok (mode : Mode) (params : List String) (kwargs : List (Strin
   rw [h1]
   cases mode <;> simp [h2, h3]
 
-example : stubKwargs (V := Nat) .blocking pinnedHelperParams [("x", 1), ("timeout", 2)] = .ok [("x", 1), ("timeout", 2)] := by
-  simp [stubKwargs, pinnedHelperParams, timeoutKw]
+example : stubKwargs (V := Nat) .blocking helperParamsBeforeFix [("x", 1), ("timeout", 2)] = .ok [("x", 1), ("timeout", 2)] := by
+  simp [stubKwargs, helperParamsBeforeFix, timeoutKw]
 
 /-- positional and keyword arguments reach `_handle_method_rpc_request` exactly as the caller passed them
 (same values, same order, same keywords), together with the method name and the lock token -/
@@ -417,11 +425,10 @@ private theorem peer_eq_direct (P : Pickle V W) (X : Excs V) (mode : Mode) (para
     simp only [peerCall, hstub, hk, mkRequest, ht1, hdel1, hdisp, ht2, hdel2, directCall, hm, hf]
     simp [futureHandle, wait]
 
-/-- **C02, pinned tree.**  For both placements, every method of the interface, all positional and keyword arguments,
-every lock state compatible with the call, any alias names: the outcome of the call through the proxy (blocking, or
-non-blocking + wait) is the outcome of the direct call — *given* that pickle round-trips the values of the call and
-that no keyword is named like a parameter of the forwarding helper (see the module comment) or `rpc_timeout`. -/
-theorem proxy_eq_direct_partial (pl : Placement) (P : Pickle V W) (X : Excs V) (mode : Mode) (params : List String)
+/-- Generic lemma, for *any* list `params` of helper parameters a keyword could collide with: the outcome of the
+call through the proxy is the outcome of the direct call, provided no keyword of the call is in `params`.
+(`proxy_eq_direct` below instantiates it with the list extracted from the source, which is empty.) -/
+theorem proxy_eq_direct_for_params (pl : Placement) (P : Pickle V W) (X : Excs V) (mode : Mode) (params : List String)
     (cli srv : Node) (cc sc : Conn) (o : Obj V) (iface : List String) (futureAddr objAddr : Addr) (rid attr : String)
     (args : List V) (kwargs : List (String × V)) (token : Option Token) (f : List V → List (String × V) → Res V)
     (hwf : WellFormed pl cli srv cc sc futureAddr objAddr)
@@ -441,8 +448,12 @@ theorem proxy_eq_direct_partial (pl : Placement) (P : Pickle V W) (X : Excs V) (
     exact peer_eq_direct P X mode params cli srv cc sc o iface futureAddr objAddr rid attr args kwargs token f
       hwf.objReg h1 h2 h3 h4 hattr hm hlock hkw hto hp hres
 
-/-- **C02, full statement** — true of the model once the helper has no positional-or-keyword parameters a caller
-keyword could collide with (`params = []`; the proposed fix makes them positional-only). -/
+/-- **C02, full statement.**  For both placements (same context / peer context), both kinds of proxy (blocking, or
+non-blocking + wait), every method of the interface, *all* positional and keyword arguments, every lock state
+compatible with the call, any context and alias names: the outcome of the call through the proxy — with the stubs
+bound and the helper declared as the current source has them — is the outcome of the direct call, **given** that
+pickle round-trips the values of the call.  (`rpc_timeout` is the documented proxy-level keyword, not an argument
+of the method.) -/
 theorem proxy_eq_direct (pl : Placement) (P : Pickle V W) (X : Excs V) (mode : Mode)
     (cli srv : Node) (cc sc : Conn) (o : Obj V) (iface : List String) (futureAddr objAddr : Addr) (rid attr : String)
     (args : List V) (kwargs : List (String × V)) (token : Option Token) (f : List V → List (String × V) → Res V)
@@ -451,12 +462,22 @@ theorem proxy_eq_direct (pl : Placement) (P : Pickle V W) (X : Excs V) (mode : M
     (hto : ∀ kv ∈ kwargs, kv.1 ≠ timeoutKw)
     (hp : ∀ v ∈ args ++ kwargs.map (·.2), P.decode (P.encode v) = some v)
     (hres : ∀ v, (f args kwargs = .value v ∨ f args kwargs = .exc v) → P.decode (P.encode v) = some v) :
-    proxyCall pl P X mode [] cli srv cc sc o (mkStubs iface) futureAddr objAddr rid attr args kwargs token
-      = directCall o attr args kwargs :=
-  proxy_eq_direct_partial pl P X mode [] cli srv cc sc o iface futureAddr objAddr rid attr args kwargs token f
+    proxyCall pl P X mode (genParams mode) cli srv cc sc o (mkStubsWith (genBinding mode) iface) futureAddr objAddr
+        rid attr args kwargs token
+      = directCall o attr args kwargs := by
+  have hb : mkStubsWith (genBinding mode) iface = mkStubs iface := by
+    cases mode
+    · simp [genBinding, gen_binding_perName.1, mkStubsWith]
+    · simp [genBinding, gen_binding_perName.2, mkStubsWith]
+  have hpar : genParams mode = [] := by
+    cases mode
+    · exact gen_helper_params_empty.1
+    · exact gen_helper_params_empty.2
+  rw [hb, hpar]
+  exact proxy_eq_direct_for_params pl P X mode [] cli srv cc sc o iface futureAddr objAddr rid attr args kwargs token f
     hwf hattr hm hlock (fun _ _ h => by cases h) hto hp hres
 
-/-! ### the hypotheses are satisfiable, and the keyword hypothesis cannot be dropped -/
+/-! ### the hypotheses are satisfiable; a historical example -/
 
 private def exSrvConn : Conn := { cid := 1, alias := "$client_1", peerName := some "cli", incoming := true }
 private def exCliConn : Conn := { cid := 2, alias := "srv", peerName := some "srv" }
@@ -474,22 +495,25 @@ example : WellFormed .peerContext exCli exSrv exCliConn exSrvConn ⟨"cli", "$fu
 example : WellFormed .sameContext exCli exSrv exCliConn exSrvConn ⟨"srv", "$future_9"⟩ ⟨"srv", "obj"⟩ :=
   ⟨by decide, fun _ => ⟨rfl, rfl, by decide⟩, (fun h => nomatch h)⟩
 
-example : proxyCall .peerContext exP exX .nonBlocking pinnedHelperParams exCli exSrv exCliConn exSrvConn exObj
+example : proxyCall .peerContext exP exX .nonBlocking helperParamsBeforeFix exCli exSrv exCliConn exSrvConn exObj
     (mkStubs ["__enter__", "echo", "get_name"]) ⟨"cli", "$future_1"⟩ ⟨"srv", "obj"⟩ "r1" "echo" [7, 8] [("x", 9)] none
     = .value 12 := by decide
 
-/-- **The full statement is false of the pinned tree**: with the helper's parameter names as they are, the call
-`proxy.echo(context=0)` raises `TypeError` at the proxy although `obj.echo(context=0)` returns normally
-(all other hypotheses of `proxy_eq_direct_partial` hold).  Replayed on the real code by the harness
-(known finding `keyword-argument-named-like-helper-parameter:context`). -/
-theorem proxy_eq_direct_false_for_pinned_params :
-    proxyCall .sameContext exP exX .blocking pinnedHelperParams exCli exSrv exCliConn exSrvConn exObj
+/-- the same call with keywords named like the former helper parameters — they simply arrive, now -/
+example : proxyCall .peerContext exP exX .blocking (genParams .blocking) exCli exSrv exCliConn exSrvConn exObj
+    (mkStubsWith (genBinding .blocking) ["echo"]) ⟨"cli", "$future_1"⟩ ⟨"srv", "obj"⟩ "r1" "echo" []
+    [("context", 0), ("method_name", 1)] none = directCall exObj "echo" [] [("context", 0), ("method_name", 1)] := by
+  decide
+
+/-- HISTORICAL example, about the constant `helperParamsBeforeFix` (the helper signature up to 04de7e7), *not* about the
+source: with those parameter names `proxy.echo(context=0)` raised `TypeError` at the proxy although
+`obj.echo(context=0)` returns normally.  Repaired by 266e9a5; the harness still replays these calls on the real code,
+where they must now agree with the direct call. -/
+theorem historical_keyword_collision :
+    proxyCall .sameContext exP exX .blocking helperParamsBeforeFix exCli exSrv exCliConn exSrvConn exObj
         (mkStubs ["echo"]) ⟨"srv", "$future_9"⟩ ⟨"srv", "obj"⟩ "r1" "echo" [] [("context", 0)] none
       = .stubError .typeError ∧
-    directCall exObj "echo" [] [("context", 0)] = .value 10 ∧
-    proxyCall .peerContext exP exX .nonBlocking pinnedHelperParams exCli exSrv exCliConn exSrvConn exObj
-        (mkStubs ["echo"]) ⟨"cli", "$future_1"⟩ ⟨"srv", "obj"⟩ "r1" "echo" [] [("method_name", 0)] none
-      ≠ directCall exObj "echo" [] [("method_name", 0)] := by
+    directCall exObj "echo" [] [("context", 0)] = .value 10 := by
   decide
 
 /-! ## replies go to the requesting future, under any number of concurrent callers -/
